@@ -80,6 +80,20 @@ class Formula:
         if k == "BinaryOperator" and n["op"] in ("<", "<=", ">", ">="):
             # region tests: decided by the branch choice through the rule table
             return self.region(n)
+        if is_call(n) and n["callee"].get("inrepo") and self.depth <= 1 and FB:
+            # a predicate member extracted from the guards: evaluate its returned condition under the same valuation
+            g = FB[0].fns.get(n["callee"].get("key"))
+            if g is not None and g.body is not None:
+                rets = [x for x in walk(g.body) if x["k"] == "ReturnStmt" and kids(x)]
+                if len(rets) == 1 and len([x for x in kids(g.body)]) == 1:
+                    sub = Formula(g, self.flags, self.branch, self.S)
+                    sub.depth = self.depth + 1
+                    for p_, a in zip(g.params, self.f.args(n)):
+                        if (p_.get("ty") or "") in ("bool", "const bool"):
+                            sub.cenv[p_["id"]] = self.cond(a)
+                        elif render(a) != p_.get("name"):
+                            return None       # the rule table reads the guards by their text: a renamed argument is not followed
+                    return sub.cond(kids(rets[0])[0])
         return None
 
     def region(self, n):
